@@ -517,6 +517,15 @@ pub fn generate(rng: &mut Rng, cfg: &GenCfg) -> Universe {
                             },
                         ));
                     }
+                } else if rng.chance(1, 3) && u.hosts.len() > u.zones[0].ns_hosts.len() {
+                    // shared hosting: a name server that already serves another zone (there it may be in-bailiwick
+                    // with glue) also serves this one; here it is out-of-bailiwick, with or without glue
+                    let h = rng.range(u.zones[0].ns_hosts.len(), u.hosts.len() - 1);
+                    if ns_hosts.contains(&h) {
+                        continue;
+                    }
+                    ns_hosts.push(h);
+                    glue.push(rng.chance(1, 3));
                 } else {
                     // hosted under an existing zone that is not the new zone or below it: any existing one qualifies
                     let host_zone = rng.below(idx);
